@@ -704,6 +704,11 @@ func trackRun(e *Env) {
 
 	var c *client.Conn
 	ready := false
+	parkedBG, sessionOver := 0, false
+	if g.Pct(15) {
+		parkedBG = g.Range(20, 48)
+	}
+	defer func() { sessionOver = true }()
 	welcomeMark := 0 // lines the model had sent when it (last) sent a welcome
 	welcomeText := 0
 	// client lines: MODE/WHO queries are answered later, at random moments
@@ -740,6 +745,9 @@ func trackRun(e *Env) {
 			welcomeMark = len(net.sent)
 			// (servers word the welcome differently: the client's full address at
 			// the end, the nick only, neither)
+			if parkedBG > 0 {
+				l.SendLine(":irc.sim NOTICE * :*** Looking up your hostname")
+			}
 			l.SendLine(":irc.sim 001 " + net.me.nick + " :" + []string{"Welcome to the sim " + net.me.nick + "!sim@host.sim", "Welcome to the Internet Relay Network " + net.me.nick, "Welcome to the sim"}[welcomeText])
 			ready = true
 			for {
@@ -784,6 +792,17 @@ func trackRun(e *Env) {
 		}
 	}
 	c = NewClient(g.Knobs(co))
+	if parkedBG > 0 {
+		// many background handlers that take for ever (they run for the server's
+		// greeting and are still running when the session ends): they are no
+		// concern of the event loop's, however many there are
+		e.S.Count("probe.many-background-handlers-still-running")
+		for k := 0; k < parkedBG; k++ {
+			c.HandleBG("NOTICE", client.HandlerFunc(func(*client.Conn, *client.Line) {
+				simrt.Block("parked-bg", "the end of the session", func() bool { return sessionOver })
+			}))
+		}
+	}
 	st := c.StateTracker()
 	trafficStarted := false
 	if g.Pct(40) {
